@@ -26,7 +26,6 @@ import (
 	"time"
 
 	"github.com/rulego/streamsql/utils/cast"
-	"github.com/rulego/streamsql/utils/fieldpath"
 
 	"github.com/rulego/streamsql/types"
 )
@@ -344,9 +343,6 @@ func (cw *CountingWindow) getKey(data any) string {
 				mv := v.MapIndex(reflect.ValueOf(k))
 				if mv.IsValid() {
 					val = mv.Interface()
-				} else if fieldpath.IsNestedField(k) {
-					// GROUP BY dev.id: the key is a path into the row, as the aggregator resolves it
-					val, _ = fieldpath.GetNestedField(data, k)
 				}
 			}
 		case reflect.Struct:
